@@ -19,7 +19,7 @@ pub fn run_scheduled(
     bodies: Vec<Box<dyn FnOnce() -> Vec<String> + Send>>,
     schedule: &[usize],
 ) -> (Vec<String>, Vec<Vec<String>>) {
-    run_scheduled_opt(bodies, schedule, false)
+    run_scheduled_full(bodies, schedule, false, |_| {})
 }
 
 /// `inner`: the threads also stop inside every hooked `fetch_update`, between running its closure and the
@@ -28,6 +28,27 @@ pub fn run_scheduled_opt(
     bodies: Vec<Box<dyn FnOnce() -> Vec<String> + Send>>,
     schedule: &[usize],
     inner: bool,
+) -> (Vec<String>, Vec<Vec<String>>) {
+    run_scheduled_full(bodies, schedule, inner, |_| {})
+}
+
+/// `on_turn` is called with every trace line at the moment the turn is decided, i.e. while every thread is
+/// blocked (or finished) and BEFORE the named thread is let go: a caller that writes the line to the event log gets
+/// it in front of whatever the thread logs during that turn. Turns are also granted at explicit
+/// `tower_resilience_core::verif::yield_point()` calls of a body.
+pub fn run_scheduled_with(
+    bodies: Vec<Box<dyn FnOnce() -> Vec<String> + Send>>,
+    schedule: &[usize],
+    on_turn: impl FnMut(&str),
+) -> (Vec<String>, Vec<Vec<String>>) {
+    run_scheduled_full(bodies, schedule, false, on_turn)
+}
+
+pub fn run_scheduled_full(
+    bodies: Vec<Box<dyn FnOnce() -> Vec<String> + Send>>,
+    schedule: &[usize],
+    inner: bool,
+    mut on_turn: impl FnMut(&str),
 ) -> (Vec<String>, Vec<Vec<String>>) {
     let n = bodies.len();
     let sh = Arc::new(Shared {
@@ -85,6 +106,7 @@ pub fn run_scheduled_opt(
             Some(t) => {
                 if t >= n || st.done[t] {
                     trace.push(format!("skip {}", t));
+                    on_turn(trace.last().unwrap());
                     return true;
                 }
                 t
@@ -95,6 +117,7 @@ pub fn run_scheduled_opt(
             },
         };
         trace.push(format!("step {}", tid));
+        on_turn(trace.last().unwrap());
         st.turn = Some(tid);
         sh.cv.notify_all();
         true
